@@ -28,7 +28,7 @@ def plain_specs():
         d[k] = spec(k, [A, B, C, X], x0, [hill(k, [A], [B], 'kf', 'KK', 'nn', C), ma([B], [A], 0.5)], P)
     for k in ('proportionalhillpositive', 'proportionalhillnegative'):
         d[k] = spec(k, [A, B, C, X], x0, [hill(k, [A], [B], 1.2, 1.5, 2.0, C, B), ma([B], [A], 0.5)], P)
-    d['general_terms1'] = spec('general1', [A, B, C, X], x0, [gen([A], [B], big_general), ma([B], [A], 0.5)], P)
+    d['general_terms1'] = spec('general1', [A, B, C, X], x0, [gen([A], [B], ('*', ('/', ID(A), ('+', NUM(1), ID(A))), big_general)), ma([B], [A], 0.5)], P)   # vanishes at A = 0: the model stays bounded for every seed
     d['general_terms2'] = spec('general2', [A, B, C, X], x0, [gen([], [C], more_general), ma([C], [], 0.5)], P)
     for dl in (dict(type='fixed', delay='tau'), dict(type='gaussian', mean='mu', std='sd'), dict(type='gamma', k='sh', theta='sc')):
         d['delay_' + dl['type']] = spec('delay_' + dl['type'], [A, B, C, X], x0,
@@ -85,11 +85,12 @@ def lineage_variants():
     V['vol_ode+div_general'] = base([('volume:ode', {'equation': '0.5 + 0.1*A'})], division=('general', {'equation': 'volume - 1.5'}))
     V['death_species'] = base([grow, ('death:species', {'specie': 'B', 'threshold': 6, 'comp': '>'})], division=('time', {'threshold': 0.5}))
     V['death_param'] = base([grow, ('death:param', {'param': 'q', 'threshold': 5.0, 'comp': '>'})], division=('time', {'threshold': 0.75}))
-    V['events'] = base([grow], events=[('volume:linear', {'growth_rate': 0.2}, 'massaction', {'k': 0.8, 'species': ''}),
-                                       ('division:division', {}, 'massaction', {'k': 0.6, 'species': ''}),
-                                       ('death:death', {}, 'massaction', {'k': 0.05, 'species': 'B'})])
-    V['events_general_volume'] = base([grow], events=[('volume:general', {'equation': 'volume + 0.1*A'}, 'hillpositive', {'k': 1.0, 'K': 2.0, 'n': 2.0, 's1': 'A'}),
-                                                      ('volume:multiplicative', {'growth_rate': 0.1}, 'massaction', {'k': 0.5, 'species': ''})],
+    # event propensities are constants ('general'): a zero-order mass-action propensity is k*V and feeds back on the volume it grows
+    V['events'] = base([grow], events=[('volume:linear', {'growth_rate': 0.2}, 'general', {'rate': '0.8'}),
+                                       ('division:division', {}, 'general', {'rate': '0.6'}),
+                                       ('death:death', {}, 'general', {'rate': '0.02*B/(1+B)'})])
+    V['events_general_volume'] = base([grow], events=[('volume:general', {'equation': 'volume + 0.1'}, 'general', {'rate': '1.0*A/(2+A)'}),
+                                                      ('volume:multiplicative', {'growth_rate': 0.1}, 'general', {'rate': '0.5'})],
                                       division=('volume', {'threshold': 1.8}))
     V['split_duplicate'] = base([grow], division=('time', {'threshold': 0.5}), splitter_opts={'default': 'binomial', 'C': 'duplicate', 'B': 'perfect'}, noise=0.2)
     V['split_volume_duplicate'] = base([grow], division=('time', {'threshold': 0.5}), splitter_opts={'volume': 'duplicate', 'A': 'perfect'})
